@@ -169,7 +169,7 @@ fn run_one(env: &Env, idx: u64) -> Value {
             rec["stats"] = json!({
                 "probe_hits": st.probe_hits, "probe_yields": st.probe_yields, "lazy_forces": st.lazy_forces, "once_calls": st.once_calls,
                 "tables_first_used": st.first_use_order.len(), "first_use_threads": threads_first.len(), "contended": st.contended_first_use,
-                "short_reads": st.short_reads, "eintr_reads": st.eintr_reads, "reads": st.reads, "clock_jumps": st.clock_jumps, "clock_reads": st.clock_reads,
+                "short_reads": st.short_reads, "eintr_reads": st.eintr_reads, "reads": st.reads, "clock_jumps": st.clock_jumps, "clock_reads": st.clock_reads, "dep_atomic_ops": st.dep_atomic_ops,
                 "state_sig": simcore::mix(st.interleaving_sig, ex.schedule.context_switches() as u64), "first_use_sig": fo.0,
             });
         }
@@ -289,7 +289,7 @@ fn main() {
         }
         "pools" => {
             let p = build_pools();
-            println!("exprs={} holiday={} easter={} countries={} excluded={} lossy_normal={:?}", p.exprs.len(), p.holiday_exprs.len(), p.easter_exprs.len(), p.countries.len(), p.excluded.len(), p.lossy_normal_exprs);
+            println!("exprs={} holiday={} easter={} countries={} excluded={} lossy_normal={:?} long={:?}", p.exprs.len(), p.holiday_exprs.len(), p.easter_exprs.len(), p.countries.len(), p.excluded.len(), p.lossy_normal_exprs, p.long_exprs.iter().map(|e| e.len()).collect::<Vec<_>>());
             println!("dense expressions: {}", p.dense_exprs.len());
             println!("border pairs: {:?}", p.border_pairs);
             println!("spacing variants: {}", p.spacing_variants.len());
@@ -498,6 +498,7 @@ fn fold(rec: &Value, agg: &mut Agg, first_use: &Mutex<std::collections::BTreeSet
         agg.sim.add("decoder_read_calls", g("reads"));
         agg.faults.add("simulated_clock_jump", g("clock_jumps"));
         agg.probes.add("library_read_the_clock", g("clock_reads"));
+        agg.sim.add("scheduling_points_at_dependency_globals", g("dep_atomic_ops"));
         agg.states.insert(g("state_sig"));
         first_use.lock().unwrap().insert(g("first_use_sig"));
     }
